@@ -14,6 +14,9 @@ const (
 	VerifSiteDetectCycleCall
 	VerifSiteDetectCycleSpread
 	VerifSiteVariableUsagesCompute
+	VerifSitePossibleTypesEnumerated
 )
 
 func verifCount(site int) {}
+
+func verifCountN(site int, n int) {}
